@@ -372,6 +372,14 @@ class SMChartFromMsd(Unit):
         ex.prove("post:enough-components", z3.Not(short))
         ex.prove("post:six-trimmed-fields-plus-extra", SO.chart_value(obj) == SP.sm_chart_of(vt),
                  "six whitespace-trimmed fields in the documented order plus the extra components")
+        # the extra components of a parsed chart are its own: not a mutable object every chart shares through the class
+        try:
+            ed = ex.getattr(obj, "extradata")
+        except PyRaise:
+            ed = None
+        shared = isinstance(ed, (list, dict, set)) and any(ed is v_ for k_ in type.mro(ccls) for v_ in vars(k_).values())
+        ex.prove("post:extra-components-not-shared-with-the-class", z3.BoolVal(not shared),
+                 "a chart without extra components must not hand out a list that every other such chart also holds")
 
 
 class RoundTripElement(Unit):
